@@ -239,15 +239,29 @@ theorem irr_cmds (fuel : Nat) (ih : Irr fuel) :
   | [c] => simp only [execCommands]; exact ih.cmd s s' c h hc
   | c :: d :: t =>
     simp only [execCommands]
-    have b1 := (bal fuel).members s (c :: d :: t) 0
-    obtain ⟨s1, r, e1, hx, hy⟩ := rel_cases (ih.members s s' (c :: d :: t) 0 h hc)
+    obtain ⟨e0, rfl⟩ := h
+    have hjc : ({ s with errexit := e0 } : St).controlsJobs = s.controlsJobs := rfl
+    have henter : ({ s with errexit := e0 } : St).enterJc = { s.enterJc with errexit := e0 } := by
+      unfold St.enterJc; rw [hjc]; split <;> rfl
+    have hcj : Cond s.enterJc := by
+      unfold St.enterJc; split
+      · exact cond_push s _ hc
+      · exact hc
+    have b1 := (bal fuel).members s.enterJc (c :: d :: t) 0
+    obtain ⟨s1, r, e1, hx, hy⟩ := rel_cases (ih.members s.enterJc _ (c :: d :: t) 0 ⟨e0, henter⟩ hcj)
     rw [hx] at b1
     rw [hx, hy]
-    have hc1 : Cond s1 := cond_of_stack b1 hc
+    simp only at b1
+    have hl : ∀ x : St, ({ s with errexit := e0 } : St).leaveJc x = s.leaveJc x := by
+      intro x; unfold St.leaveJc; rw [hjc]
+    have hle : s.leaveJc { s1 with errexit := e1 } = { s.leaveJc s1 with errexit := e1 } := by
+      unfold St.leaveJc; split <;> rfl
+    simp only [hl, hle]
+    have hc1 : Cond (s.leaveJc s1) := cond_of_stack (leaveJc_stack s s1 b1) hc
     cases r with
     | continue_ =>
-      have e2 := applyErrexit_cond ({ s1 with errexit := e1 }) (cond_of_stack rfl hc1)
-      have e3 := applyErrexit_cond s1 hc1
+      have e2 := applyErrexit_cond ({ s.leaveJc s1 with errexit := e1 }) (cond_of_stack rfl hc1)
+      have e3 := applyErrexit_cond (s.leaveJc s1) hc1
       simp only [e2, e3]
       exact rel_mk ⟨e1, rfl⟩
     | break_ d => exact rel_mk ⟨e1, rfl⟩
@@ -413,6 +427,7 @@ theorem irr_cmd (fuel : Nat) (ih : Irr fuel) :
   | ret n => simp only [execCmd]; exact rel_finishSimple' _ e0 (by exact cond_of_stack rfl hc) _
   | exit n => simp only [execCmd]; exact rel_finishSimple' _ e0 (by exact cond_of_stack rfl hc) _
   | setE on => simp only [execCmd]; exact rel_finishSimple' _ on (by exact cond_of_stack rfl hc) _
+  | setM on => simp only [execCmd]; exact rel_finishSimple' _ e0 (by exact cond_of_stack rfl hc) _
   | unknown => simp only [execCmd]; exact rel_finishSimple' _ e0 (by exact cond_of_stack rfl hc) _
   | tick c k =>
     simp only [execCmd]
